@@ -13,7 +13,9 @@ use crate::{
             },
         },
         format::format_date_part,
-        parse::{parse_date_part, parse_format_string, ParseUnit, ParsedDate},
+        parse::{
+            escaped_text, parse_date_part, parse_format_string, remove_part, ParseUnit, ParsedDate,
+        },
     },
     DateTime, DateUtilities,
 };
@@ -99,13 +101,13 @@ impl Date {
         for part in parts {
             // Escaped apostrophes
             if part.starts_with('\u{0000}') {
-                string.replace_range(0..part.len(), "");
+                remove_part(part.chars().count(), &mut string)?;
                 continue;
             }
 
             // Escaped parts
             if part.starts_with('\'') {
-                string.replace_range(0..part.len() - if part.ends_with('\'') { 2 } else { 1 }, "");
+                remove_part(escaped_text(&part).chars().count(), &mut string)?;
                 continue;
             }
 
@@ -204,8 +206,8 @@ impl Date {
 
                 // Escape parts starting with apostrophe
                 if part.starts_with('\'') {
-                    let part = part.replace('\u{0000}', "'");
-                    return part[1..part.len() - usize::from(part.ends_with('\''))]
+                    return escaped_text(part)
+                        .replace('\u{0000}', "'")
                         .chars()
                         .collect::<Vec<char>>();
                 }
